@@ -3119,6 +3119,14 @@ def logical_or(x1: ArrayOrScalar, x2: ArrayOrScalar, /) -> Array | bool:
     # type-ignored because 'broadcast_binary_op' returns Scalar, while
     # '_compare' returns a bool.
     from pytato import utils
+
+    # A scalar operand only matters through its truth value. (As written, code
+    # generation would emit e.g. 0.25 in an integer context, i.e. as 0.)
+    if np.isscalar(x1) and not np.isscalar(x2):
+        x1 = bool(x1)
+    elif np.isscalar(x2) and not np.isscalar(x1):
+        x2 = bool(x2)
+
     return utils.broadcast_binary_op(x1, x2,
                                      lambda x, y: prim.LogicalOr((x, y)),
                                      lambda x, y: np.dtype(np.bool_),
@@ -3147,6 +3155,14 @@ def logical_and(x1: ArrayOrScalar, x2: ArrayOrScalar) -> Array | bool:
     # type-ignored because 'broadcast_binary_op' returns Scalar, while
     # '_compare' returns a bool.
     from pytato import utils
+
+    # A scalar operand only matters through its truth value. (As written, code
+    # generation would emit e.g. 0.25 in an integer context, i.e. as 0.)
+    if np.isscalar(x1) and not np.isscalar(x2):
+        x1 = bool(x1)
+    elif np.isscalar(x2) and not np.isscalar(x1):
+        x2 = bool(x2)
+
     return utils.broadcast_binary_op(x1, x2,
                                      lambda x, y: prim.LogicalAnd((x, y)),
                                      lambda x, y: np.dtype(np.bool_),
